@@ -106,8 +106,8 @@ structure Acc where
   numBlocks : Nat := HDF_APPENDABLE_BLOCK_NUM
 deriving Repr, DecidableEq, Inhabited
 
-/-- model switch: `fixed = false` follows /repo as it is, `fixed = true` additionally applies the repairs proposed in
-    REPORT.md for the defects that are still open (F18 Htrunc on special elements, F23 read beyond a contiguous element) -/
+/-- model switch reserved for repairs that are proposed but not yet in /repo; none is modelled at present (the former
+    ones, F18 and F23, are in /repo since 1e2fd75 and 21b8ab5 and are now the model's only behaviour) -/
 structure Cfg where
   fixed : Bool := false
 deriving Repr, DecidableEq, Inhabited
@@ -661,7 +661,7 @@ def hread (w : World) (h : Nat) (length : Int) : World × Res :=
         let d := f.dd a.slot
         let dataLen := ddLen d
         let len : Int := if length = 0 ∨ length + a.posn > dataLen then dataLen - a.posn else length
-        if len < 0 then (if w.cfg.fixed then (w, .data 0 []) else (w, .fail))   -- `HP_read` with a negative count
+        if len < 0 then (w, .data 0 [])   -- positioned beyond the end (appendable element): nothing to read (21b8ab5)
         else match diskRead f.disk ((ddOff d).toNat + a.posn) len.toNat with
           | none => (w, .fail)
           | some bs => (w.setAcc h { a with posn := a.posn + len.toNat }, .data len bs)
@@ -691,6 +691,9 @@ def hwritePlain (w : World) (h : Nat) (a : Acc) (f : File) (bs : Bytes) : World 
       hwriteLinked w h { a with slot := (f.convert a.slot a.blockSize a.numBlocks).2, special := true, appendable := false, newElem := false }
         (f.convert a.slot a.blockSize a.numBlocks).1 bs
   else
+    -- "The element grows in place. A gap between its old end and the write position must read as zeros" (998a325)
+    let f := if a.appendable = true ∧ len + a.posn > dataLen ∧ (a.posn : Int) > dataLen then
+               f.pwrite ((ddOff d).toNat + dataLen.toNat) (zeros (a.posn - dataLen.toNat)) else f
     let f := if a.appendable = true ∧ len + a.posn > dataLen then f.ddSetExt a.slot ((ddOff d).toNat, a.posn + bs.length) else f
     let off := (ddOff d).toNat + a.posn
     let f := f.pwrite off bs
@@ -709,7 +712,7 @@ def hwrite (w : World) (h : Nat) (bs : Bytes) : World × Res :=
       hwritePlain w h { a with newElem := false, appendable := true } ((w.file a.file).setLength a.slot bs.length).1 bs
     else hwritePlain w h a (w.file a.file) bs
 
-/-- `Htrunc`: "Dunno about truncating special elements" — it acts on whatever DD the access record holds -/
+/-- `Htrunc` (contiguous elements only) -/
 def htrunc (w : World) (h : Nat) (n : Nat) : World × Res :=
   match w.acc h with
   | none => (w, .fail)
@@ -717,7 +720,8 @@ def htrunc (w : World) (h : Nat) (n : Nat) : World × Res :=
     if !a.canWrite then (w, .fail)
     else
       let f := w.file a.file
-      if w.cfg.fixed ∧ a.special then (w, .fail)
+      -- "Truncating a special element is not implemented": refused (1e2fd75)
+      if a.special then (w, .fail)
       else
       let d := f.dd a.slot
       if ddLen d > n then
